@@ -141,7 +141,13 @@ TrUnmarshal ==
                       ELSE IF res.ok /\ res.out.pkts # pk[e.dh].pkts THEN {"C11:unmarshal_vs_datagram"} ELSE {})
                   ELSE (IF res.ok THEN {"C11:unmarshal_vs_datagram"} ELSE {}))
               ELSE {}
-         G(D) == UnmarshalGuard(D, e.entry, e.b, res) \cup X IN
+         \* C13: the same bytes up to the declared length give the same result
+         Y == IF e.eqh = 0 \/ res.panic \/ Len(buf[e.eqb]) < 4 \/ HLen(buf[e.eqb]) >= 16383
+                 \/ Len(buf[e.eqb]) < 4 * (HLen(buf[e.eqb]) + 1) THEN {}
+              ELSE IF res.ok # (pk[e.eqh].k # "NONE") \/ (res.ok /\ res.out # pk[e.eqh])
+                   THEN {"C13:depends_on_octets_after_declared_length"} ELSE {}
+         Z == IF e.entry = "TWCC" THEN Twcc13Tags(buf[e.b], res) ELSE {}
+         G(D) == UnmarshalGuard(D, e.entry, e.b, res) \cup X \cup Y \cup Z IN
      /\ pk' = [pk EXCEPT ![e.h] = IF res.ok THEN res.out ELSE None]
      /\ memo' = [memo EXCEPT ![e.h] = NoMemo] /\ UNCHANGED << buf, prov, provdec >>
      /\ fromdec' = IF res.ok THEN fromdec \cup {e.h} ELSE fromdec \ {e.h}
